@@ -19,8 +19,10 @@
    * k-fold annihilation maps between sectors (`make_mapping_each_set`): for every mask and every admitted
      source the entry is the descending ladder product over the mask's orbitals — same target, parity of the
      count = its sign; a source is admitted iff all mask orbitals are occupied     : C05_kfold_map, C05_kfold_admit
-  Carried by the correspondence only (still open): de-excitation row fill count, the linking of the sector
-  graphs in `FciGraphSet` (which pairs of sectors are connected).
+   * de-excitation table (`map_to_deexc`): the row of a target holds exactly the single-excitation entries that end
+     on it, and the list of all entries has no duplicates                           : C05_deexc_row, C05_deexc_nodup
+  Carried by the correspondence only (still open): the linking of the sector graphs in `FciGraphSet` (which pairs of
+  sectors are connected).
 -/
 import FqeVerif.Lemmas.BitsC
 import FqeVerif.Lemmas.Excite
@@ -29,6 +31,7 @@ import FqeVerif.Lemmas.Subsets
 import FqeVerif.Lemmas.Address
 import FqeVerif.Lemmas.Gosper
 import FqeVerif.Lemmas.MapSet
+import FqeVerif.Lemmas.Deexc
 namespace C05
 open Model Fock
 
@@ -243,5 +246,20 @@ theorem C05_kfold_admit (s mask : Nat) :
   admit_iff s mask
 
 example : mapSetEntry [0, 2, 3] 0b1101 = (0b1101, 0, 0) ∧ mapSetEntry [0, 2] 0b10111 = (0b10111, 0b10010, 3) := by decide
+
+/-- de-excitation rows: `(source, i·norb + j, parity)` is listed under target `t` exactly when `source` is a string of
+    the table and the excitation `i ← j` takes it to `t` with that parity — nothing missing, nothing spurious -/
+theorem C05_deexc_row (norb : Nat) (strings : List Nat) (t : Nat) (x : Nat × Nat × Bool) :
+    x ∈ (((List.range norb).flatMap fun i => (List.range norb).flatMap fun j =>
+            (buildMapping strings i j).map fun (s, t, p) => (t, s, i * norb + j, p)).filter (fun e => e.1 = t)).map
+          (fun e => e.2) ↔
+      ∃ i j, i < norb ∧ j < norb ∧ x.1 ∈ strings ∧ mappingEntry i j x.1 = some (x.1, t, x.2.2) ∧ x.2.1 = i * norb + j :=
+  mem_mapToDeexc_row norb strings t x
+
+/-- … and no entry is listed twice (for a string table without repetitions, which `C05_string_table` provides) -/
+theorem C05_deexc_nodup (norb : Nat) (strings : List Nat) (hn : strings.Nodup) :
+    ((List.range norb).flatMap fun i => (List.range norb).flatMap fun j =>
+        (buildMapping strings i j).map fun (s, t, p) => (t, s, i * norb + j, p)).Nodup :=
+  allEntries_nodup norb strings hn
 
 end C05
